@@ -2385,7 +2385,7 @@ def henc_shared_stream(g, n=60):
     pool = [b'session=alpha', b'session=gamma', b'session=alpha', b'', b'a', b'b', b'custom-key', b'custom-val', b'\xff\xfe', b'\x00\x01']
     for j in range(n):
         s = rnd.choice(pool) if rnd.random() < 0.7 else bytes(rnd.randrange(256) for _ in range(rnd.choice([1, 2, 13, 13, 30])))
-        kind = rnd.choice(['shared', 'shared', 'mv-shared', 'bytearray', 'memoryview', ''])
+        kind = rnd.choice(['shared', 'shared', 'mv-shared', 'bytearray', 'memoryview', 'mv-strided', ''])
         ops.append('henc ' + hx(s) + (' #buf=' + kind if kind else ''))
         if rnd.random() < 0.3:
             ops.append('henc ' + hx(s) + ' #buf=shared')          # the very same content again
@@ -2469,4 +2469,57 @@ def ctor_options_stream(g, n=6, start_id=48000):
             if j % 7 == 3:
                 ops.append('tget %d %d' % (i, 62 + rnd.randrange(4)))
                 ops.append('tsearch %d %s %s' % (i, hx(rnd.choice(names)), hx(b'v')))
+    return ops
+
+
+def content_catalogue_stream(start_id=48000):
+    """names and values whose CONTENT invites "normalisation" by an encoder (folded lines CR LF SP / CR LF HTAB, bare CR / LF,
+    surrounding and repeated white space, list separators, letter case, NUL, DEL, non-ASCII, percent and RFC 2047
+    escapes, quotes): HPACK carries octets, every one of them must come out of the peer's decoder unchanged, with either
+    Huffman setting, sensitive or not, as a new literal and as a name/exact match later"""
+    vals = [b'a\r\n b', b'a\r\n\tb', b'line1\r\n line2\r\n\tline3', b'\r\n x', b'x\r\n', b'x\r\n ', b'a\rb', b'a\nb', b'a\r\nb', b' lead', b'trail ',
+            b'\tx\t', b'a  b', b'a \t b', b'a, b', b'a,b', b'a , b', b'A', b'MiXeD', b'\x00', b'a\x00b', b'\x7f', b'\x80', b'\xc3\xa9', b'e\xcc\x81',
+            b'%41', b'a;b', b'a; b', b'"q"', b'a\\b', b'=?utf-8?q?x?=', b'a\x0bb', b'a\x0cb', b'\xef\xbb\xbfx', b'a\xc2\xa0b', b'1.0', b'01', b'+1']
+    names = [b'X-Upper', b'x-lower', b'x_under', b' x', b'x ', b'x:y', b'x\r\n y', b'x\x00', b'X-UPPER', b'Content-Type', b'COOKIE', b'x\ty', b'x-\xc3\xa9']
+    ops = []
+    e = start_id
+    for huff in (0, 1):
+        e += 1
+        ops.append('enew %d' % e); ops.append('dnew %d 1000000' % e)
+        fields = [(b'x-c%d' % (j % 5), v, int(j % 3 == 2)) for j, v in enumerate(vals)] + [(n, b'v', int(j % 4 == 3)) for j, n in enumerate(names)] + \
+                 [(n, vals[j % len(vals)], 0) for j, n in enumerate(names)]
+        for k in range(0, len(fields), 4):
+            ops.append('eenc %d %d %s' % (e, huff, _hs(fields[k:k + 4]))); ops.append('pipe %d 1 %d' % (e, e))
+        for k in range(0, len(fields), 7):          # again: now name matches / exact matches
+            ops.append('eenc %d %d %s' % (e, 1 - huff, _hs(fields[k:k + 7]))); ops.append('pipe %d 1 %d' % (e, e))
+    # one field per block on fresh encoders (nothing else in the block to hide behind)
+    for j, v in enumerate(vals):
+        e += 1
+        ops.append('enew %d' % e); ops.append('dnew %d 1000000' % e)
+        ops.append('eenc %d %d %s' % (e, j % 2, _hs([(b'x-folded', v, 0)]))); ops.append('pipe %d 1 %d' % (e, e))
+        ops.append('eenc %d %d %s' % (e, 1 - j % 2, _hs([(b'cookie', v, 1)]))); ops.append('pipe %d 1 %d' % (e, e))
+    return ops
+
+
+def length_collision_stream(start_id=49000):
+    """on ONE encoder: a literal sent Huffman-coded whose coded length is L, and later (and earlier) a literal sent plain
+    whose length is exactly L -- for L around the 7-bit prefix boundary (127), the second continuation octet (255, 256,
+    16510) and ordinary lengths. The two length prefixes differ only in the H bit; anything an encoder shares between them
+    (a memo of prefixes, a reused buffer) shows here. Names and values are all different, so every field is a new literal."""
+    ops = []
+    e = start_id
+    seeds = [b'a' * 203, b'a' * 204, b'x' * 145, b'~' * 78, b'0' * 300, b'Z' * 1000, b'e' * 408, b'e' * 410, b'q' * 26416, b'a' * 40, b'&' * 127]
+    for order in (0, 1):
+        e += 1
+        ops.append('enew %d' % e); ops.append('dnew %d 10000000' % e)
+        for j, s in enumerate(seeds):
+            L = len(huff_encode(s))
+            plain = bytes([65 + (j % 26)]) * L
+            hfield = [(b'h-%d-%d' % (order, j), s, j % 2)]
+            pfield = [(b'p-%d-%d' % (order, j), plain, (j + 1) % 2)]
+            seq = [(1, hfield), (0, pfield), (1, [(s, b'v', 1)]), (0, [(plain, b'w', 1)])]
+            if order:
+                seq = [(0, pfield), (1, hfield), (0, [(plain, b'w', 1)]), (1, [(s, b'v', 1)])]
+            for huff, f in seq:
+                ops.append('eenc %d %d %s' % (e, huff, _hs(f))); ops.append('pipe %d 1 %d' % (e, e))
     return ops
